@@ -43,6 +43,10 @@ CHECKS = {
  'C19': dict(
    text='util.format_float runs unstubbed on a symbolic real: for every real with 1e-30<=|f|<=1e12 (and 0), both modes and signs, z3 decides per path (decade, digit count, format) in mixed integer/real arithmetic that the text read back is within 5e-6 relative / 1e-6 absolute, at most 9 characters with a fraction, never -0. The report writers run on symbolic currents/voltages/fields: every printed number is the value its row is about and the report is structurally complete. Two open findings (V/m table precision).',
    design='DESIGN.md 3 (C19)'),
+ 'C20': dict(
+   text='main() is executed symbolically up to the constructed model on argument lists whose numeric fields are solver variables over wide ranges (divisions fork on zero): on every path it ends in a model, a one-line diagnostic with 23, or the usage error for ALL values of that path. One solver-generated representative per path and the special classes nan/inf/0/negative/1e-300/1e300 of every field are run through the complete real program and classified by the trichotomy (this second part is path-guided generation, not a for-all verdict). 14 defects repaired, 19 recorded.',
+   design='DESIGN.md 3 (C20)',
+   technique='bounded symbolic execution of main() on token argument lists (z3 path enumeration, zero-divisor forks) + solver-generated representative per path replayed on the complete real program'),
  'C08': dict(
    text='For all load values, frequencies and (for the system-level clauses) all non-singular system matrices within the stated sizes, '
         'z3 finds no input for which a load deviates from the series element it describes; bounded by catalogue geometries and matrix size.',
